@@ -331,6 +331,46 @@ def nearest {β : Type} (ops : NearOps β) (fuel : Nat) (A : β) : Option (β ×
     if ops.isPsd A3 then some (A3, .higham)
     else nearLoop ops A fuel A3 1
 
+/-! ### Model.create / Model.replace: when the initial estimates are canonicalised
+
+  `P` = parameters, `R` = random variables; `valid p r` = `r.validate_parameters(p.inits)`,
+  `repair p r` = `p.set_initial_estimates(r.nearest_valid_parameters(p.inits))`. -/
+
+/-- `Model._canonicalize_parameter_estimates(params, rvs)`. -/
+def canonicalizeEstimates {P R : Type} (valid : P → R → Bool) (repair : P → R → P) (p : P) (r : R) : P :=
+  if valid p r then p else repair p r
+
+/-- The two fields of a `Model` that matter here. -/
+structure MState (P R : Type) where
+  params : P
+  rvs : R
+
+/-- `Model.create(parameters=p, random_variables=r, …)`. -/
+def modelCreate {P R : Type} (valid : P → R → Bool) (repair : P → R → P) (p : P) (r : R) : MState P R :=
+  ⟨canonicalizeEstimates valid repair p r, r⟩
+
+/-- `model.replace(parameters=newP?, random_variables=newR?, …)`: the estimates are canonicalised
+    against the resulting random variables whether `parameters`, `random_variables`, both or
+    neither is passed (the call is unconditional in `replace`). -/
+def modelReplace {P R : Type} (valid : P → R → Bool) (repair : P → R → P) (m : MState P R)
+    (newP : Option P) (newR : Option R) : MState P R :=
+  let p := newP.getD m.params
+  let r := newR.getD m.rvs
+  ⟨canonicalizeEstimates valid repair p r, r⟩
+
+/-- A history of `replace` calls. -/
+def modelHistory {P R : Type} (valid : P → R → Bool) (repair : P → R → P) (m : MState P R)
+    (ops : List (Option P × Option R)) : MState P R :=
+  ops.foldl (fun m op => modelReplace valid repair m op.1 op.2) m
+
+/-- The variant that canonicalises only when `parameters` is passed (kept for the witness theorem). -/
+def modelReplaceOnlyIfParams {P R : Type} (valid : P → R → Bool) (repair : P → R → P) (m : MState P R)
+    (newP : Option P) (newR : Option R) : MState P R :=
+  let r := newR.getD m.rvs
+  match newP with
+  | some p => ⟨canonicalizeEstimates valid repair p r, r⟩
+  | none => ⟨m.params, r⟩
+
 /-! ### internals.math: triangular_root, flattened_to_symmetric, cov2corr / corr2cov -/
 
 /-- `triangular_root(x) = floor(sqrt(2 x))`. -/
